@@ -24,19 +24,30 @@
 (* hand-over queue, arrivals queue up behind a running hand-over.  The     *)
 (* model of the code before the repair (check-then-store race; deviations  *)
 (* stranded / orphan / overtake / stale-store-drained-later) is in the     *)
-(* history of this file.  The collector is not part of this model: while   *)
-(* the epoch clock stands still maybeGC returns at its period test (C15    *)
-(* covers expiry).                                                         *)
+(* history of this file.  The collector takes part when GCOn = TRUE: a     *)
+(* thread op "tick" advances the epoch clock; every Send ends with         *)
+(* maybeGC (period test and compare-and-swap of lastGC without a yield     *)
+(* point, then gcmark under the read lock, gcsweep under the write lock).  *)
+(* It removes buffers unused and started marks not renewed for more than   *)
+(* Expire epochs -- never a running hand-over queue.  (Limits and expiry   *)
+(* at API level: C15.)                                                     *)
 (***************************************************************************)
 EXTENDS Integers, Sequences, FiniteSets, TLC
 
 CONSTANTS Threads,   \* thread names (strings)
-          Prog,      \* [Threads -> Seq(op)], op = [k |-> "recv", m |-> [id, src, topic, ack]] | [k |-> "send", t |-> topic]
-          Topics
+          Prog,      \* [Threads -> Seq(op)], op = [k |-> "recv", m |-> [id, src, topic, ack]] | [k |-> "send", t |-> topic] | [k |-> "tick"]
+          Topics,
+          GCOn,      \* does the collector take part (FALSE: the epoch clock stands still, maybeGC returns at its period test)
+          Expire     \* GCExpire / GCSweep
 
 None == [id |-> 0, src |-> 0, topic |-> "", ack |-> FALSE]
 
 VARIABLES started,   \* set of topics with an entry in startedSending
+          startedAt, \* [Topics -> epoch of the last Send]
+          epoch, lastGC,
+          used,      \* [Topics -> epoch in which the buffer of the topic was created or last added to]
+          swept,     \* ghost: topics whose started mark the collector has removed (a later arrival is held again, by design)
+          lateIds,   \* ghost: messages that arrived for a topic after its mark had been swept, or whose buffer expired
           pend,      \* [Topics -> [has : BOOLEAN, msgs : Seq(msg)]]   pendingMessages
           hand,      \* [Topics -> [has : BOOLEAN, msgs : Seq(msg)]]   hand-over queues
           inflight,  \* set of <<src, topic>>       totalInFlightTopicsBySender
@@ -46,16 +57,18 @@ VARIABLES started,   \* set of topics with an entry in startedSending
           th,        \* [Threads -> [oi, stk]]      stk: Seq(frame), frame = [f, pc, m, tp, drainer]
           ev         \* last event (not part of the VIEW)
 
-vars == <<started, pend, hand, inflight, hlock, handed, fsent, th, ev>>
-view == <<started, pend, hand, inflight, hlock, handed, fsent, th>>
+gcvars == <<startedAt, epoch, lastGC, used, swept, lateIds>>
+vars == <<started, pend, hand, inflight, hlock, handed, fsent, th, ev, gcvars>>
+view == <<started, pend, hand, inflight, hlock, handed, fsent, th, gcvars>>
 
 Absent == [has |-> FALSE, msgs |-> <<>>]
 
 RecvFrame(m)  == [f |-> "recv", pc |-> "decide", m |-> m, tp |-> m.topic, drainer |-> FALSE]
-SendFrame(tp) == [f |-> "send", pc |-> "send", m |-> None, tp |-> tp, drainer |-> FALSE]
+SendFrame(tp) == [f |-> "send", pc |-> "send", m |-> None, tp |-> tp, drainer |-> FALSE, now |-> 0, del |-> {}]
 HandlerFrame(m) == [f |-> "handler", pc |-> "hlock", m |-> m, tp |-> m.topic, drainer |-> FALSE]
+TickFrame == [f |-> "tick", pc |-> "tick", m |-> None, tp |-> "", drainer |-> FALSE]
 
-OpFrame(op) == IF op.k = "recv" THEN RecvFrame(op.m) ELSE SendFrame(op.t)
+OpFrame(op) == IF op.k = "recv" THEN RecvFrame(op.m) ELSE IF op.k = "send" THEN SendFrame(op.t) ELSE TickFrame
 
 InitThread(t) == [oi |-> 1, stk |-> IF Prog[t] = <<>> THEN <<>> ELSE <<OpFrame(Prog[t][1])>>]
 
@@ -63,6 +76,7 @@ Init == /\ started = {} /\ pend = [t \in Topics |-> Absent] /\ hand = [t \in Top
         /\ inflight = {} /\ hlock = [t \in Topics |-> ""] /\ handed = <<>> /\ fsent = <<>>
         /\ th = [t \in Threads |-> InitThread(t)]
         /\ ev = ""
+        /\ startedAt = [t \in Topics |-> 0] /\ epoch = 0 /\ lastGC = 0 /\ used = [t \in Topics |-> 0] /\ swept = {} /\ lateIds = {}
 
 PC(t) == IF th[t].stk = <<>> THEN "done" ELSE th[t].stk[Len(th[t].stk)].pc
 
@@ -90,6 +104,17 @@ SendReturned(s) ==
 
 Fin(t, r, s) == IF s = <<>> THEN NextOp(t, r) ELSE [r EXCEPT !.stk = s]
 
+\* the body of Send is over: maybeGC (deferred).  Its period test and the compare-and-swap of lastGC have no yield point.
+EndOfSend(t, r, s, fr) ==
+  IF GCOn /\ epoch - lastGC >= Expire
+    THEN /\ lastGC' = epoch
+         /\ th' = [th EXCEPT ![t].stk = SetTop(s, [fr EXCEPT !.pc = "gcmark", !.now = epoch])]
+         /\ UNCHANGED hlock
+    ELSE LET res == SendReturned(s) IN
+         /\ th' = [th EXCEPT ![t] = Fin(t, r, res[1])]
+         /\ hlock' = IF res[2] = "" THEN hlock ELSE [hlock EXCEPT ![res[2]] = ""]
+         /\ UNCHANGED lastGC
+
 Step(t) ==
   LET r == th[t]  s == r.stk  fr == Top(s)  m == fr.m IN
   /\ s # <<>>
@@ -99,26 +124,28 @@ Step(t) ==
               THEN IF hand[m.topic].has
                      THEN /\ hand' = [hand EXCEPT ![m.topic].msgs = Append(@, m)]     \* queue up behind the running hand-over
                           /\ th' = [th EXCEPT ![t] = Fin(t, r, Pop(s))]
-                          /\ UNCHANGED <<started, pend, inflight, hlock, handed, fsent>>
+                          /\ UNCHANGED <<started, pend, inflight, hlock, handed, fsent, gcvars>>
                      ELSE /\ th' = [th EXCEPT ![t].stk = SetTop(s, [fr EXCEPT !.pc = "forward"])]
-                          /\ UNCHANGED <<started, pend, hand, inflight, hlock, handed, fsent>>
+                          /\ UNCHANGED <<started, pend, hand, inflight, hlock, handed, fsent, gcvars>>
               ELSE /\ inflight' = inflight \cup {<<m.src, m.topic>>}
                    /\ pend' = [pend EXCEPT ![m.topic] = [has |-> TRUE, msgs |-> Append(@.msgs, m)]]
+                   /\ used' = [used EXCEPT ![m.topic] = IF pend[m.topic].has /\ @ > epoch THEN @ ELSE epoch]
+                   /\ lateIds' = IF m.topic \in swept THEN lateIds \cup {m.id} ELSE lateIds
                    /\ th' = [th EXCEPT ![t] = Fin(t, r, Pop(s))]
-                   /\ UNCHANGED <<started, hand, hlock, handed, fsent>>
+                   /\ UNCHANGED <<started, hand, hlock, handed, fsent, startedAt, epoch, lastGC, swept>>
        [] fr.pc = "forward" ->    \* MessageHandler.HandleMessage(msg)
             IF m.ack
               THEN /\ th' = [th EXCEPT ![t].stk = Append(s, HandlerFrame(m))]       \* the handler parks before its lock
-                   /\ UNCHANGED <<started, pend, hand, inflight, hlock, handed, fsent>>
+                   /\ UNCHANGED <<started, pend, hand, inflight, hlock, handed, fsent, gcvars>>
               ELSE /\ handed' = Append(handed, m.id)
                    /\ th' = [th EXCEPT ![t] = Fin(t, r, HandlerReturned(s))]
-                   /\ UNCHANGED <<started, pend, hand, inflight, hlock, fsent>>
+                   /\ UNCHANGED <<started, pend, hand, inflight, hlock, fsent, gcvars>>
        [] fr.pc = "hlock" ->      \* handler: lock of the session, record, acknowledge from inside the lock
             /\ hlock[m.topic] = ""
             /\ hlock' = [hlock EXCEPT ![m.topic] = t]
             /\ handed' = Append(handed, m.id)
             /\ th' = [th EXCEPT ![t].stk = Append(s, SendFrame(m.topic))]
-            /\ UNCHANGED <<started, pend, hand, inflight, fsent>>
+            /\ UNCHANGED <<started, pend, hand, inflight, fsent, gcvars>>
        [] fr.pc = "send" ->       \* Send, critical section: mark started, move the held messages to the hand-over queue
             LET tp == fr.tp IN
             /\ started' = started \cup {tp}
@@ -127,26 +154,44 @@ Step(t) ==
                            ELSE {x \in inflight : ~(x[2] = tp /\ \E i \in DOMAIN pend[tp].msgs : pend[tp].msgs[i].src = x[1])}
             /\ hand' = IF pend[tp].has THEN [hand EXCEPT ![tp] = [has |-> TRUE, msgs |-> @.msgs \o pend[tp].msgs]] ELSE hand
             /\ th' = [th EXCEPT ![t].stk = SetTop(s, [fr EXCEPT !.pc = "fwdsend", !.drainer = pend[tp].has /\ ~hand[tp].has])]
-            /\ UNCHANGED <<hlock, handed, fsent>>
-       [] fr.pc = "fwdsend" ->    \* ForwardSend; then the hand-over loop (deferred) if this Send took the held messages
+            /\ startedAt' = [startedAt EXCEPT ![tp] = epoch]
+            /\ UNCHANGED <<hlock, handed, fsent, epoch, lastGC, used, swept, lateIds>>
+       [] fr.pc = "fwdsend" ->    \* ForwardSend; then the hand-over loop (deferred) if this Send took the held messages; then maybeGC
             /\ fsent' = Append(fsent, fr.tp)
             /\ IF fr.drainer
                  THEN /\ th' = [th EXCEPT ![t].stk = SetTop(s, [fr EXCEPT !.pc = "next"])]
-                      /\ UNCHANGED hlock
-                 ELSE LET res == SendReturned(s) IN
-                      /\ th' = [th EXCEPT ![t] = Fin(t, r, res[1])]
-                      /\ hlock' = IF res[2] = "" THEN hlock ELSE [hlock EXCEPT ![res[2]] = ""]
-            /\ UNCHANGED <<started, pend, hand, inflight, handed>>
-       [] fr.pc = "next" ->       \* hand-over loop: take the next queued message, or finish
+                      /\ UNCHANGED <<hlock, lastGC>>
+                 ELSE EndOfSend(t, r, s, fr)
+            /\ UNCHANGED <<started, pend, hand, inflight, handed, startedAt, epoch, used, swept, lateIds>>
+       [] fr.pc = "next" ->       \* hand-over loop: take the next queued message, or finish (then maybeGC)
             IF hand[fr.tp].msgs = <<>>
-              THEN LET res == SendReturned(s) IN
-                   /\ hand' = [hand EXCEPT ![fr.tp] = Absent]
-                   /\ th' = [th EXCEPT ![t] = Fin(t, r, res[1])]
-                   /\ hlock' = IF res[2] = "" THEN hlock ELSE [hlock EXCEPT ![res[2]] = ""]
-                   /\ UNCHANGED <<started, pend, inflight, handed, fsent>>
+              THEN /\ hand' = [hand EXCEPT ![fr.tp] = Absent]
+                   /\ EndOfSend(t, r, s, fr)
+                   /\ UNCHANGED <<started, pend, inflight, handed, fsent, startedAt, epoch, used, swept, lateIds>>
               ELSE /\ hand' = [hand EXCEPT ![fr.tp].msgs = Tail(@)]
                    /\ th' = [th EXCEPT ![t].stk = SetTop(s, [fr EXCEPT !.pc = "forward", !.m = Head(hand[fr.tp].msgs)])]
-                   /\ UNCHANGED <<started, pend, inflight, hlock, handed, fsent>>
+                   /\ UNCHANGED <<started, pend, inflight, hlock, handed, fsent, gcvars>>
+       [] fr.pc = "gcmark" ->     \* mark (read lock): buffers unused and started marks not renewed for more than Expire epochs
+            /\ th' = [th EXCEPT ![t].stk = SetTop(s, [fr EXCEPT !.pc = "gcsweep",
+                          !.del = {tp \in Topics : \/ (pend[tp].has /\ fr.now > used[tp] /\ fr.now - used[tp] > Expire)
+                                                   \/ (tp \in started /\ fr.now > startedAt[tp] /\ fr.now - startedAt[tp] > Expire)}])]
+            /\ UNCHANGED <<started, pend, hand, inflight, hlock, handed, fsent, gcvars>>
+       [] fr.pc = "gcsweep" ->    \* sweep (write lock): buffers, their senders' bookkeeping, started marks -- NOT the hand-over queues
+            LET res == SendReturned(s) IN
+            /\ pend' = [tp \in Topics |-> IF tp \in fr.del THEN Absent ELSE pend[tp]]
+            /\ started' = started \ fr.del
+            /\ inflight' = {x \in inflight : ~(x[2] \in fr.del /\ pend[x[2]].has /\ \E i \in DOMAIN pend[x[2]].msgs : pend[x[2]].msgs[i].src = x[1])}
+            /\ swept' = swept \cup (fr.del \cap started)
+            /\ lastGC' = fr.now
+            \* held data that expires before its topic starts is discarded by design (C15): exempt from exactly-once
+            /\ lateIds' = lateIds \cup UNION {{pend[tp].msgs[i].id : i \in DOMAIN pend[tp].msgs} : tp \in fr.del}
+            /\ th' = [th EXCEPT ![t] = Fin(t, r, res[1])]
+            /\ hlock' = IF res[2] = "" THEN hlock ELSE [hlock EXCEPT ![res[2]] = ""]
+            /\ UNCHANGED <<hand, handed, fsent, startedAt, epoch, used>>
+       [] fr.pc = "tick" ->       \* the epoch clock
+            /\ epoch' = epoch + 1
+            /\ th' = [th EXCEPT ![t] = Fin(t, r, Pop(s))]
+            /\ UNCHANGED <<started, pend, hand, inflight, hlock, handed, fsent, startedAt, lastGC, used, swept, lateIds>>
 
 Next == \E t \in Threads : Step(t)
 Spec == Init /\ [][Next]_vars
@@ -165,7 +210,7 @@ Count(s, x) == Cardinality({i \in DOMAIN s : s[i] = x})
 \* parameterised by the hand-off log h (model: handed; conformance: the observed log) and the started topics
 NoDupOn(h) == \A m \in Received : Count(h, m.id) <= 1
 \* st: the topics on which the local party has sent (ForwardSend was called)
-ExactlyOnceOn(h, st) == \A m \in Received : m.topic \in st => Count(h, m.id) = 1
+ExactlyOnceOn(h, st) == \A m \in Received : (m.topic \in st /\ m.id \notin lateIds) => Count(h, m.id) = 1
 
 \* arrival order of one sender's messages = program order of its connection thread
 Before(a, b) == \E t \in Threads : \E i, j \in DOMAIN Prog[t] :
@@ -181,5 +226,5 @@ NoDup          == NoDupOn(handed)
 ExactlyOnce    == Terminal => ExactlyOnceOn(handed, SentOn)
 PerSenderOrder == PerSenderOrderOn(handed)
 \* nothing stays behind in a buffer of a started topic, no hand-over is left unfinished
-Clean          == Terminal => \A tp \in Topics : (tp \in SentOn => ~pend[tp].has) /\ ~hand[tp].has
+Clean          == Terminal => \A tp \in Topics : ((tp \in SentOn /\ tp \notin swept) => ~pend[tp].has) /\ ~hand[tp].has
 =============================================================================
